@@ -128,6 +128,8 @@ def run_controls():
              'ctl2.discard_on_whole_test'),
             ('stale-default', sweeps.stale_default, 'STALE-DEFAULT', 'says whether the', 'ctl2.flag_before_default', 'ctl2.flag_after_default'),
             ('name-key', sweeps.name_keyed_memo, 'NAME-KEY', 'has one entry per item', 'ctl2.memo_by_name', 'ctl2.memo_by_position'),
+            ('or-falsy', sweeps.or_default_on_table, 'OR-FALSY', 'every entry of the table can be returned', 'ctl2.table_with_falsy_entry',
+             'ctl2.table_without_falsy_entry'),
             ('late-bind', sweeps.late_binding, 'LATE-BIND', 'does not outlive the iteration', 'ctl2.closures_called_after_loop',
              'ctl2.closures_called_in_loop')):
         o = Obligations('CTL')
